@@ -321,7 +321,7 @@ func judgeC15(c ReqCase) *Fail {
 
 func genC15(t *rapid.T) ReqCase {
 	g := G{t}
-	o := GenOpts{MaxBiases: 1, MinBiases: 1, Biases: []string{"criteriaOmission"}, ValueMode: -1, Probes: true, Superfluous: true, MinCrit: 1, BigTiers: true}
+	o := GenOpts{MaxBiases: 1, MinBiases: 1, Biases: []string{"criteriaOmission"}, ValueMode: -1, Probes: true, Superfluous: true, MinCrit: 1, BigTiers: true, ValueScales: true}
 	if g.Chance(1, 4) {
 		o.TieHeavy = true // importance ties
 	}
